@@ -510,6 +510,12 @@ def judge_cold_start(ctx, case):
     ctx.count('cold-start trials (fresh interpreter, threads released before first use)')
     expect = json.loads(json.dumps(expect))          # same shape as what travelled through the child's JSON report
     for i, (g, w) in enumerate(zip(got, expect)):
+        if g != w and files[i]['role'] == 'writer' and files[i]['blocked'] and g and g[0] == 'file' \
+                and g[1] == w[1] + refb.FILL_BLOCK.hex():
+            # a stream that ends exactly on a block boundary may be followed by one all-fill block (C04's statement):
+            # the streaming writer adds it, the reference blocker does not - both are the file of these records
+            ctx.count('cold-start writers whose file ends with the optional all-fill block')
+            continue
         if g != w:
             kind = g[0] if g else 'nothing'
             ctx.violation('isolation:cold_start:%s:%s' % (files[i]['role'], 'error' if kind == 'error' else 'result_differs'),
